@@ -26,6 +26,16 @@ namespace AI = AIToolbox;
 #define C08_POMDP_NOCHECK_SEEDED false
 #endif
 
+// ---------------------------------------------------------------- independent mirror of AIToolbox::Seeder
+// Seeder::setRootSeed(r) seeds an mt19937 with r; getSeed() draws uniform_int_distribution<unsigned>(0, max) from it, which for a
+// 32-bit engine of full range is the raw engine word.  The mirror does NOT call the library (a Seeder that hands out
+// repeated or constant seeds would otherwise be mirrored faithfully and go unnoticed).
+struct SeederMirror {
+    std::mt19937 g;
+    explicit SeederMirror(unsigned root) : g(root) {}
+    unsigned next() { return (unsigned)g(); }
+};
+
 // ---------------------------------------------------------------- scripted engine
 struct ScriptEngine {
     using result_type = uint32_t;
@@ -249,7 +259,17 @@ static std::vector<double> mirrorGammas(const std::vector<double> & params, AI::
     for (size_t i = 0; i < params.size(); ++i) { gs[i] = AI::sampleLogGammaDistribution(params[i], mir); mx = std::max(mx, gs[i]); }
     for (auto & g : gs) g = std::exp(g - mx);
 #else
-    for (size_t i = 0; i < params.size(); ++i) { std::gamma_distribution<double> d(params[i], 1.0); gs[i] = d(mir); }
+    double sum = 0.0;
+    for (size_t i = 0; i < params.size(); ++i) { std::gamma_distribution<double> d(params[i], 1.0); gs[i] = d(mir); sum += gs[i]; }
+#ifdef C08_GAMMA_FALLBACK
+    // fixes/C08-8: when every plain draw underflowed to 0 the code draws again in log space (the library's own helper) and scales by the largest
+    if (sum == 0.0) {
+        double mx = -std::numeric_limits<double>::infinity();
+        for (size_t i = 0; i < params.size(); ++i) { gs[i] = AI::sampleLogGammaDistribution(params[i], mir); mx = std::max(mx, gs[i]); }
+        for (auto & g : gs) g = std::exp(g - mx);
+        std::printf("#stat gamma_fallback_taken 1\n");
+    }
+#endif
 #endif
     return gs;
 }
@@ -408,10 +428,10 @@ static void emit_models(Rng & rng, int nsamples) {
         // the object drew two seeds from the Seeder (MDP part first, then the POMDP part): mirror them
         // (`skipSeeds` seeds were drawn before by the object it was copied from; a POMDP part that does not
         // seed its engine holds a default-constructed std::mt19937)
-        AI::Seeder::setRootSeed(root);
-        for (int i = 0; i < skipSeeds; ++i) AI::Seeder::getSeed();
-        std::mt19937 m1(AI::Seeder::getSeed()), m2;
-        if (pomdpSeeded) m2.seed(AI::Seeder::getSeed());
+        SeederMirror sm(root);
+        for (int i = 0; i < skipSeeds; ++i) sm.next();
+        std::mt19937 m1(sm.next()), m2;
+        if (pomdpSeeded) m2.seed(sm.next());
         std::vector<double> row;
         for (int i = 0; i < nsamples; ++i) {
             size_t s = rng.below(S), a = rng.below(A);
@@ -506,9 +526,9 @@ static void emit_seeded(Rng & rng, bool sparse, unsigned root) {
     const size_t S = 2, A = 1, O = 4, K = 16;
     std::vector<double> orow{0.25, 0.25, 0.25, 0.25};
     AI::Matrix3D T(A, AI::Matrix2D::Constant(S, S, 0.5)), OB(A, AI::Matrix2D::Constant(S, O, 0.25)); AI::Matrix2D R = AI::Matrix2D::Zero(S, A);
-    AI::Seeder::setRootSeed(root);
-    AI::Seeder::getSeed();                                   // the MDP part's seed
-    std::mt19937 m2(AI::Seeder::getSeed());                  // the seed the POMDP part is expected to take
+    SeederMirror sm(root);
+    sm.next();                                               // the MDP part's seed
+    std::mt19937 m2(sm.next());                              // the seed the POMDP part is expected to take
     std::uniform_real_distribution<double> d01(0.0, 1.0);
     std::vector<double> us; for (size_t i = 0; i < K; ++i) us.push_back(d01(m2));
     std::vector<size_t> obs;
@@ -575,8 +595,8 @@ static void emit_traj(Rng & rng, int steps) {
     std::uniform_real_distribution<double> d01(0.0, 1.0);
     const size_t s0 = rng.below(S);
     auto go = [&](auto & pm) {
-        AI::Seeder::setRootSeed(root);
-        std::mt19937 m1(AI::Seeder::getSeed()), m2(AI::Seeder::getSeed());
+        SeederMirror sm(root);
+        std::mt19937 m1(sm.next()), m2(sm.next());
         std::vector<double> us; std::vector<size_t> out;
         size_t s = s0, sum = 0;
         for (int k = 0; k < steps; ++k) {
@@ -609,8 +629,8 @@ static void emit_factored(Rng & rng, int nsamples) {
     auto model = topo == 6 ? FM::makeSysAdminGrid(2, (unsigned)rng.range(2, 3), pf, pfb, pd, pdb, pl, pg, pff)
                : topo == 7 ? FM::makeSysAdminTorus(3, 3, pf, pfb, pd, pdb, pl, pg, pff)   // a torus needs at least 3 per side (2 makes both neighbours the same machine: rejected by DDNGraph)
                : (topo & 1) ? FM::makeSysAdminBiRing(agents, pf, pfb, pd, pdb, pl, pg, pff) : FM::makeSysAdminUniRing(agents, pf, pfb, pd, pdb, pl, pg, pff);
-    AI::Seeder::setRootSeed(root);
-    std::mt19937 mir(AI::Seeder::getSeed());
+    SeederMirror sm(root);
+    std::mt19937 mir(sm.next());
     std::uniform_real_distribution<double> d01(0.0, 1.0);
     const auto & S = model.getS(); const auto & A = model.getA();
     for (int t = 0; t < nsamples; ++t) {
@@ -663,8 +683,8 @@ static void emit_sparse_model_witness() {
     std::uniform_real_distribution<double> d01(0.0, 1.0);
     unsigned bestRoot = 0; long best = -1; double bestU = 0;
     for (unsigned root = 1; root <= 6; ++root) {
-        AI::Seeder::setRootSeed(root);
-        std::mt19937 mir(AI::Seeder::getSeed());
+        SeederMirror sm(root);
+        std::mt19937 mir(sm.next());
         const long cap = best < 0 ? 8000000 : best;
         for (long i = 0; i < cap; ++i) { double u = d01(mir); if (u >= sum) { best = i; bestRoot = root; bestU = u; break; } }
     }
